@@ -2870,6 +2870,7 @@ def _put_slice_Call_ClassDef_arglikes(
     options: Mapping[str, Any],
     *,
     kw_only: bool = False,
+    refuse_insert: str | None = None,
 ) -> None:
     ast = self.a
     body = self._cached_arglikes()
@@ -2884,6 +2885,9 @@ def _put_slice_Call_ClassDef_arglikes(
             return
 
     else:
+        if refuse_insert:
+            raise NodeError(refuse_insert)
+
         if kw_only and any((bad := a).__class__ is not keyword for a in fst_.a.arglikes):
             raise NodeError(f'expecting only keywords, got {bad.__class__.__name__}')
 
@@ -2945,16 +2949,19 @@ def _put_slice_Call_ClassDef_keywords(
     exprs_field = 'args' if ast.__class__ is Call else 'bases'
     exprs = getattr(ast, exprs_field)
 
-    if (exprs and start < len(body) and (start != stop or code is not None)
-        and body[start].f.loc < exprs[-1].f.loc
-    ):  # also an insertion to an empty slice, it would not be at index `start + nexprs` of the arglikes
-        raise NodeError(f'cannot put to {ast.__class__.__name__}.keywords slice because it precedes {exprs_field}'
-                        f", try the '_{exprs_field}' field")
+    refuse = None
+
+    if exprs and start < len(body) and body[start].f.loc < exprs[-1].f.loc:
+        refuse = (f'cannot put to {ast.__class__.__name__}.keywords slice because it precedes {exprs_field}'
+                  f", try the '_{exprs_field}' field")
+
+        if start != stop:
+            raise NodeError(refuse)
 
     nexprs = len(exprs)
 
     return _put_slice_Call_ClassDef_arglikes(self, code, start + nexprs, stop + nexprs, '_' + exprs_field, one, options,
-                                             kw_only=True)
+                                             kw_only=True, refuse_insert=refuse)  # an insertion to an empty slice there (if there turns out to be anything to insert) would not be at index `start + nexprs` of the arglikes
 
 
 def _put_slice_MatchSequence_patterns(
